@@ -2086,7 +2086,13 @@ func (c *Ctx) ruleSchemaExtentByDependency(rule string) {
 				return true
 			}
 			n++
-			r.Bad(rule, f.Name()+" | JSchema.Len", "the end of the schema body is where the dependency's reader stops, and it stops after the '#' comments that follow the schema, read by its own grammar: a bare '#' line after a body makes the next directive disappear ('200' / '{}' / '#' / '404 any' builds without the 404), '## note' there is an error, while both are plain comments between any other two directives", c.pos(call.Pos()))
+			// keyed by what is called, not by the function that holds the call (moving the call into a helper is the same
+			// finding; a second call elsewhere is a new one)
+			key := "package scanner | JSchema.Len"
+			if n > 1 {
+				key = fmt.Sprintf("%s #%d", key, n)
+			}
+			r.Bad(rule, key, "the end of the schema body is where the dependency's reader stops, and it stops after the '#' comments that follow the schema, read by its own grammar: a bare '#' line after a body makes the next directive disappear ('200' / '{}' / '#' / '404 any' builds without the 404), '## note' there is an error, while both are plain comments between any other two directives", c.pos(call.Pos()))
 			return true
 		})
 	}
